@@ -141,6 +141,20 @@ Proof.
 Qed.
 Print Assumptions implements_order_refuted.
 
+(* method tables and interface method lists name an unexported method by its DECLARING package and
+   its name, so findMethod / Implements match methods exactly by go/types sameId: a promoted method of
+   another package keeps that package, and an own method m of the embedding package is a different name *)
+Theorem method_table_name_identity : forall n p n2 p2,
+  wf_ident n = true -> wf_path p = true -> wf_ident n2 = true -> wf_path p2 = true ->
+  (table_name n (Some p) = table_name n2 (Some p2) <-> same_id n (Some p) n2 (Some p2) = true).
+Proof. exact (table_name_inj (fun x => x) (fun a b e => e)). Qed.
+Print Assumptions method_table_name_identity.
+
+Example promoted_method_name :
+  table_name [109] (Some [120;47;114]) <> table_name [109] (Some [109;97;105;110])
+  /\ table_name [80;117;98] (Some [120;47;114]) = table_name [80;117;98] (Some [109;97;105;110]).
+Proof. split; [discriminate|reflexivity]. Qed.
+
 (* a matched method with a nil function pointer in slot 0 reads as not implemented *)
 Theorem itab_nil_ifn_slot0_refuted : exists inter mt,
   StronglySorted mlt mt /\ Forall (has mt) inter /\ new_itab inter (Some mt) = None.
